@@ -1,5 +1,7 @@
 """C11 — field-manipulating builtins have exactly their documented effect."""
-from lib import gen
+import os
+
+from lib import gen, vlib
 from checks import machine
 
 LEVEL = "model_checking"
@@ -7,6 +9,11 @@ LEVEL = "model_checking"
 
 def run(ck):
     q = ck.tier == "quick"
+    # the regular-expression catalog is verified against the engine it stands for (Go's regexp), never against the code under test
+    r = vlib.vh_json(["catalog-check", os.path.join(vlib.SPEC, "catalogs.json")])
+    if r["bad"]:
+        raise vlib.Broken("catalog entries disagree with their engines: %s" % r["bad"][:5])
+    ck.note("catalog_entries_verified_against_engines", r["entries"])
     progs = gen.gen_builtins(q, ck.seed)
     r = machine.run_family(ck, "builtins", progs)
     ck.cov.setdefault("families", {})["builtins"] = len(progs)
